@@ -7,6 +7,7 @@ K([x1;x2]), kernel[i](x1[i],x2[i]), expand_batch, all also with active_dims (per
 multi-output kernels (num_outputs_per_input > 1).  Witnesses count LazyEvaluatedKernelTensor._getitem / evaluate_kernel.
 """
 import itertools
+import math
 import random
 
 PROPERTY = "C06"
@@ -122,15 +123,37 @@ def cases(tier, seed):
                     return c_[:8] + [e for e in c_ if isinstance(e, list) and e[0] == "t"][1:4]
 
                 per_dim[: len(batch)] = [_bc(s) for s in batch]
-            combos = [list(c) for c in itertools.product(*per_dim) if sum(1 for e in c if isinstance(e, list) and e[0] == "t") <= 1]
+            _one_t = lambda c: sum(1 for e in c if isinstance(e, list) and e[0] == "t") <= 1
+            cap = (150 if tier == "quick" else 2500)
+            if math.prod(len(p_) for p_ in per_dim) <= 4000:
+                combos = [list(c) for c in itertools.product(*per_dim) if _one_t(c)]
+            else:
+                # too many to enumerate in every shard (the generator runs in each): draw the sample directly
+                seen_, combos = set(), []
+                for _ in range(40 * cap):
+                    c = tuple(rnd.randrange(len(p_)) for p_ in per_dim)
+                    cc = [p_[i_] for p_, i_ in zip(per_dim, c)]
+                    if c not in seen_ and _one_t(cc):
+                        seen_.add(c)
+                        combos.append(cc)
+                        if len(combos) >= cap:
+                            break
             extra = []
-            for c in itertools.product(*per_dim[-2:]):
-                if sum(1 for e in c if isinstance(e, list) and e[0] == "t") <= 1:
-                    extra.append(["..."] + list(c))
+            if len(per_dim[-2]) * len(per_dim[-1]) <= 4000:
+                extra = [["..."] + list(c) for c in itertools.product(*per_dim[-2:]) if _one_t(c)]
+            else:
+                seen_ = set()
+                for _ in range(40 * cap):
+                    c = (rnd.randrange(len(per_dim[-2])), rnd.randrange(len(per_dim[-1])))
+                    cc = [per_dim[-2][c[0]], per_dim[-1][c[1]]]
+                    if c not in seen_ and _one_t(cc):
+                        seen_.add(c)
+                        extra.append(["..."] + cc)
+                        if len(extra) >= cap // 2:
+                            break
             for c in per_dim[0][:6] + ([e for e in per_dim[0] if isinstance(e, list) and e[0] == "t"] if len(batch) >= 1 else []):
                 extra.append([c])
                 extra.append([c, "..."])
-            cap = (150 if tier == "quick" else 2500)
             if len(combos) > cap:
                 combos = rnd.sample(combos, cap)
             if len(extra) > cap // 2:
